@@ -6,7 +6,12 @@
 (* hence with each other.  This validator adds the cross-configuration     *)
 (* requirements on the recorded events themselves:                         *)
 (*   - every result value is the same in every configuration of a script   *)
-(*     (all backends, chunkings, runs, buffer sizes, versions);            *)
+(*     (all backends, chunkings, runs, buffer sizes, versions) when the    *)
+(*     script consists of whole-stream operations (scope "all"); scripts   *)
+(*     of primitive Read/Write calls, whose short counts legitimately      *)
+(*     depend on the buffer size, are compared within their byte group     *)
+(*     only (scope "grp") - their logical outcome is judged against the    *)
+(*     reference byte vector by Trace_Handle for every buffer size;        *)
 (*   - within a byte group (same version and buffer size: repeat runs,     *)
 (*     in-memory vs real file, every chunking / Interrupted schedule) the  *)
 (*     file image after every compared step is byte-identical (hash and    *)
@@ -26,10 +31,10 @@ vars == <<bytesRef, resRef, cur, l>>
 Has(e, f) == f \in DOMAIN e
 Fail(prop, rule, e) == PrintT(<<"FAIL", prop, rule, e.hi, (IF Has(e, "oi") THEN e.oi ELSE -1), l>>)
 
-NoCfg == [script |-> "", label |-> "", grp |-> ""]
+NoCfg == [script |-> "", label |-> "", grp |-> "", scope |-> "all"]
 Init == bytesRef = <<>> /\ resRef = <<>> /\ cur = NoCfg /\ l = 1
 
-IsCfg(c) == DOMAIN c = {"script", "label", "grp"}
+IsCfg(c) == DOMAIN c = {"script", "label", "grp", "scope"}
 Compared(e) == (~Has(e, "cmp")) \/ e.cmp
 
 (* what of a result is compared: everything except free-text messages *)
@@ -43,7 +48,7 @@ ResetStep(e) ==
 OpStep(e) ==
   IF cur.script = "" \/ ~Compared(e) THEN UNCHANGED <<bytesRef, resRef, cur>>
   ELSE
-  LET rk == <<cur.script, e.oi>>
+  LET rk == <<cur.script, (IF cur.scope = "grp" THEN cur.grp ELSE ""), e.oi>>
       bk == <<cur.script, cur.grp, e.oi>>
       hasBytes == Has(e, "imghash")
       bval == IF hasBytes THEN <<e.imghash, (IF Has(e, "flen") THEN e.flen ELSE -1)>> ELSE <<>>
